@@ -92,9 +92,9 @@ def rule_a(ctx):
         probe_x = norm(expand(f.node, ast.parse(PROBE, mode="eval").body))
         ctx.ob(R, f.qname, f"restoration->model = {flag}: stages run in the documented order, each on the previous result", names == STAGES + tail and start in (PROBE, probe_x),
                f"chain from `{start}`: {names}", f.node,
-               evidence=(sorted(names) == sorted(STAGES + tail) and names != STAGES + tail)     # all documented stages, in another order
+               evidence=start in (PROBE, probe_x) and ((sorted(names) == sorted(STAGES + tail) and names != STAGES + tail)     # all documented stages, in another order
                or (bool(names) and set(names) < set(STAGES + tail) and [n_ for n_ in STAGES + tail if n_ in names] == names
-                   and set(STAGES + tail) <= {norm(c_.func)[5:] for c_ in ast.walk(f.node) if isinstance(c_, ast.Call) and norm(c_.func).startswith("self._")}))  # a stage is computed and its result dropped
+                   and set(STAGES + tail) <= {norm(c_.func)[5:] for c_ in ast.walk(f.node) if isinstance(c_, ast.Call) and norm(c_.func).startswith("self._")})))  # a stage is computed and its result dropped; only for a chain followed back to the probe
         conv = [a for st, a in ch if st == "_convert_signal"]
         ctx.ob(R, f.qname, f"restoration->model = {flag}: the model also receives the original difference", bool(conv) and len(conv[0]) == 2 and conv[0][1] in (f"self._subtract_background({PROBE})", f"self._subtract_background({probe_x})"), str(conv)[:200], f.node)
         ctx.ob(R, f.qname, f"restoration->model = {flag}: the end of the chain is what is returned", e is not None, f"returned {RES}", f.node)
